@@ -31,6 +31,7 @@ import json
 import os
 import random
 import re
+import fnmatch
 import sys
 import time
 
@@ -181,7 +182,8 @@ def make_tasks(cr, T):
         name = y['basename'] if y.get('basename') else T
         return [{'name': name, 'deps': list(y['task_dep']), 'fileDep': list(y.get('file_dep', [])),
                  'targets': list(y['targets']), 'group': False, 'utd': oracle_utd(y), 'fails': y['fails'],
-                 'extra': extra_deps(cr, T, y), 'setup': x_edges(cr, T, y)[0], 'calcDep': x_edges(cr, T, y)[1]}]
+                 'extra': extra_deps(cr, T, y), 'setup': x_edges(cr, T, y)[0], 'calcDep': x_edges(cr, T, y)[1],
+                 'wild': list(y.get('wild') or [])}]
     out = {}
     order = []
     for y in cr['yields']:
@@ -196,7 +198,8 @@ def make_tasks(cr, T):
             order.append(name)
         out[name] = {'name': name, 'deps': list(y['task_dep']), 'fileDep': list(y.get('file_dep', [])),
                      'targets': list(y['targets']), 'group': False, 'utd': oracle_utd(y), 'fails': y['fails'],
-                     'extra': extra_deps(cr, T, y), 'setup': x_edges(cr, T, y)[0], 'calcDep': x_edges(cr, T, y)[1]}
+                     'extra': extra_deps(cr, T, y), 'setup': x_edges(cr, T, y)[0], 'calcDep': x_edges(cr, T, y)[1],
+                     'wild': list(y.get('wild') or [])}
     if not order:
         return [{'name': T, 'deps': [], 'fileDep': [], 'targets': [], 'group': True, 'extra': []}]
     return [out[n] for n in order]
@@ -218,9 +221,9 @@ def extended(case):
     why = set()
     for cr in case['creators']:
         for y in cr['yields']:
-            for k in ('setup', 'calc_dep', 'getargs'):
+            for k in ('setup', 'calc_dep', 'getargs', 'wild'):
                 if y.get(k):
-                    why.add(k)
+                    why.add('wildcard-task_dep' if k == 'wild' else k)
     return sorted(why)
 
 
@@ -276,11 +279,18 @@ def analyse(case):
             utd.add(t['name'])
         if t['fails']:
             fails.add(t['name'])
+    table0 = [n_ for n_, _, _, _, _ in load_order(case)]
     for c, cr in enumerate(case['creators']):
         for T in cand:
             if T not in placeholders(cr):
                 continue        # `to_load` of a loader object of creator c is one of its placeholders (since 46c8565 always)
             lst = make_tasks(cr, T)
+            for d in lst:
+                # a wildcard task_dep: the monitors' dependency table takes what is certainly in the task table when
+                # the batch is registered -- the loaded tasks / placeholders and the tasks of the same batch
+                for pat in d.get('wild', []):
+                    d['extra'] = d.get('extra', []) + [n_ for n_ in table0 + [x['name'] for x in lst if x['name'] not in table0]
+                                                       if fnmatch.fnmatch(n_, pat)]
             for d in lst:
                 nid(d['name'])
                 for x in d['deps'] + d['fileDep'] + d['targets'] + d.get('extra', []):
@@ -377,7 +387,9 @@ def to_request(case, obs, an=None, op='check'):
     tasks = [[ix[n], {'deps': [ix[d] for d in deps], 'loader': l, 'fileDep': [], 'targets': [ix[f] for f in tg],
                       'act': act}]
              for n, deps, l, tg, act in load_order(case)]
+    pats = sorted(set(p_ for _, _, lst in an['make'] for d in lst for p_ in d.get('wild', [])))
     req = {'model': 'delayed', 'op': op, 'tasks': tasks,
+           'wmatch': [[i, [ix[n_] for n_ in an['names'] if fnmatch.fnmatch(n_, p_)]] for i, p_ in enumerate(pats)],
            'targets': [[ix[f], ix[t]] for f, t in an['static_targets'].items()],
            'loaders': [{'creator': c, 'exec': (ix[case['creators'][c]['executed']]
                                                if case['creators'][c]['executed'] else None),
@@ -388,6 +400,7 @@ def to_request(case, obs, an=None, op='check'):
            'make': [[c, ix[T], [{'name': ix[d['name']], 'deps': [ix[x] for x in d['deps'] + d.get('extra', [])],
                                  'tdeps': [ix[x] for x in d['deps']], 'setup': [ix[x] for x in d.get('setup', [])],
                                  'calcDep': [ix[x] for x in d.get('calcDep', [])],
+                                 'wild': [pats.index(p_) for p_ in d.get('wild', [])],
                                  'fileDep': [ix[x] for x in d['fileDep']],
                                  'targets': [ix[x] for x in d['targets']], 'act': not d['group']}
                                 for d in lst]] for c, T, lst in an['make']],
@@ -475,8 +488,8 @@ def build_namespace(case, rec):
         def item(y):
             # the task's id is only known once its name is: the action looks it up by the name doit gave it
             d = {'actions': [NamedAct(list(y['targets']), y['fails'], want_args=bool(y.get('getargs')))]}
-            if y['task_dep']:
-                d['task_dep'] = list(y['task_dep'])
+            if y['task_dep'] or y.get('wild'):
+                d['task_dep'] = list(y['task_dep']) + list(y.get('wild') or [])
             if y['targets']:
                 d['targets'] = list(y['targets'])
             if y.get('file_dep'):
@@ -863,6 +876,14 @@ def gen_case(rng, runner=None, knobs=None):
             if rng.random() < k.get('p_calc_dep', 0.3) and any(t.get('kind') == 'calc' for t in static):
                 t = [t for t in static if t.get('kind') == 'calc'][0]
                 y['calc_dep'] = [{'task': t['name'], 'delivers': list(t['delivers']['task_dep'])}]
+            if rng.random() < k.get('p_wild', 0.1):
+                # a wildcard task_dep (repair 71e546b: expanded against the task table when the batch is registered)
+                import fnmatch as _fn
+                pats = ['s*', 'grp:*'] + [yield_name(yy, fname)[:-1] + '*' for yy in yields[:j]]
+                pats = [p_ for p_ in pats if not _fn.fnmatch(yield_name(y, fname), p_)
+                        and not any(_fn.fnmatch(p2, p_) for p2 in (creates or [fname]))]
+                if pats:
+                    y['wild'] = [rng.choice(pats)]
             if j and rng.random() < k.get('p_getargs', 0.1):
                 # a value computed by an earlier task of the same creator -- a sub-task of the delayed group
                 src = rng.randrange(j)
@@ -978,7 +999,7 @@ def render(case):
                 ['%s%s deps=%s targets=%s%s%s%s' % (y.get('basename') or '', (':' + y['sub']) if y.get('sub') else '',
                                                      y['task_dep'], y['targets'],
                                                      (' file_dep=%s' % y['file_dep'] if y.get('file_dep') else '') +
-                                                     ''.join(' %s=%s' % (kk, y[kk]) for kk in ('setup', 'calc_dep', 'getargs', 'utd_fn')
+                                                     ''.join(' %s=%s' % (kk, y[kk]) for kk in ('setup', 'calc_dep', 'getargs', 'wild', 'utd_fn')
                                                              if y.get(kk) is not None and y.get(kk) != []),
                                                      ' utd' if y['utd'] else '',
                                                      ' FAILS' if y['fails'] else '') for y in cr['yields']]))
@@ -1231,7 +1252,7 @@ def _variants(case):
                                      if r['ref'] != j}
             yield c
         for j, y in enumerate(case['creators'][i]['yields']):
-            for key in ('setup', 'calc_dep', 'getargs', 'utd_fn'):
+            for key in ('setup', 'calc_dep', 'getargs', 'wild', 'utd_fn'):
                 if y.get(key) is not None and y.get(key) != []:
                     c = copy.deepcopy(case)
                     del c['creators'][i]['yields'][j][key]
@@ -1387,7 +1408,7 @@ def count_case(st, case, obs, ans):
         st.count('executed=%s' % ('none' if not ex else 'unknown-task' if ex == 'nosuch' else
                                   'static-' + kinds[ex] if ex in kinds else 'delayed-task'))
         for y in cr['yields']:
-            for kk in ('setup', 'calc_dep', 'getargs'):
+            for kk in ('setup', 'calc_dep', 'getargs', 'wild'):
                 if y.get(kk):
                     st.count('created-task:%s' % kk)
             if y.get('utd_fn') is not None:
